@@ -25,7 +25,9 @@ not modelled.
 Modelling decisions (all stated again in config/C07.json):
 
 * `reorder_peptides` sorts with `par_sort_unstable_by` and then merges ADJACENT key-equal entries
-  (`dedup_by`: the earlier entry is kept, the later one's proteins are appended, `decoy &=`). The
+  (`dedup_by`: the earlier entry is kept, the later one's proteins are appended, `decoy &=`,
+  `semi_enzymatic &=`, `missed_cleavages = min`, `position = min`: every merged field is an
+  order-independent aggregate of the class except the order of the protein list, sorted later). The
   model performs the same merge class by class in generation order (`mergeAll`: the first entry of
   a class of key-equal entries absorbs the later ones in order), which is what "stable sort by the
   full key, then adjacent merge" computes, up to the order of the resulting list. The ORDER of the database is C08's subject; C07 compares databases as sorted lists.
@@ -220,9 +222,20 @@ def buildForms (cfg : Cfg α) (groups : List Group) : List (Pep α) :=
 def sameKey (a b : Pep α) : Bool :=
   a.mono == b.mono && a.sequence == b.sequence && a.mods == b.mods && a.nterm == b.nterm && a.cterm == b.cterm
 
-/-- `keep.proteins.extend(remove.proteins); keep.decoy &= remove.decoy` -/
+/-- `#[derive(Ord)]` on `Position` (declaration order), for `keep.position.min(remove.position)` -/
+def posRank6 : C06.Position → Nat
+  | .nterm => 0 | .cterm => 1 | .full => 2 | .internal => 3
+
+def posMin (a b : C06.Position) : C06.Position := if posRank6 a ≤ posRank6 b then a else b
+
+/-- `keep.proteins.extend(remove.proteins); keep.decoy &= remove.decoy; keep.semi_enzymatic &=
+    remove.semi_enzymatic; keep.missed_cleavages = keep.missed_cleavages.min(remove.missed_cleavages);
+    keep.position = keep.position.min(remove.position)` (the last three since /repo 8dee51f: the merged
+    entry no longer depends on which key-equal duplicate the unstable sort kept) -/
 def absorb (keep remove : Pep α) : Pep α :=
-  { keep with proteins := keep.proteins ++ remove.proteins, decoy := keep.decoy && remove.decoy }
+  { keep with proteins := keep.proteins ++ remove.proteins, decoy := keep.decoy && remove.decoy,
+              semi := keep.semi && remove.semi, mc := min keep.mc remove.mc,
+              position := posMin keep.position remove.position }
 
 /-- the entry that remains of a class of key-equal entries: the first one, having absorbed the later ones in order -/
 def absorbAll (keep : Pep α) (rs : List (Pep α)) : Pep α := rs.foldl absorb keep
